@@ -59,9 +59,12 @@ class _SocketHub:
         self, socket: thread_socket.ThreadSocket, timeout: Optional[float] = None
     ) -> None:
         """Connects a socket to another"""
+        # Register the callbacks before the socket becomes visible to its remote: otherwise a message
+        # sent in between is queued for an endpoint that only listens to callbacks (and is overtaken
+        # by later messages).
+        self._add_callbacks(socket)
         self._open_sockets.add(socket.key)
         self._remote_sockets.add(socket.key)
-        self._add_callbacks(socket)
 
         self._wait_for_remote(socket, timeout=timeout)
 
